@@ -746,6 +746,20 @@ impl OverlayInode {
         inodes.extend(new);
     }
 
+    // Self is a directory: check whether its lower layers still show an entry named <name>.
+    // The topmost lower layer having the name decides: a whiteout there hides everything below.
+    pub fn lower_layers_have_child(&self, ctx: &Context, name: &str) -> Result<bool> {
+        for ri in self.real_inodes.lock().unwrap().iter() {
+            if ri.in_upper_layer {
+                continue;
+            }
+            if let Some(child) = ri.lookup_child(ctx, name)? {
+                return Ok(!child.whiteout);
+            }
+        }
+        Ok(false)
+    }
+
     pub fn in_upper_layer(&self) -> bool {
         let all_inodes = self.real_inodes.lock().unwrap();
         let first = all_inodes.first();
@@ -1892,7 +1906,11 @@ impl OverlayFs {
         let mut need_whiteout = true;
         let pnode = self.copy_node_up(ctx, Arc::clone(&pnode))?;
 
-        if node.upper_layer_only() {
+        // A whiteout is needed exactly when a lower layer of the parent directory still has a
+        // visible entry with this name. This also holds for a node that only has an upper
+        // inode itself (an upper file or opaque directory shadowing a lower entry), so
+        // upper_layer_only() is not the right test.
+        if !pnode.lower_layers_have_child(ctx, sname.as_str())? {
             need_whiteout = false;
         }
 
